@@ -22,7 +22,7 @@ PROPERTY = 'C09'
 LEVEL = 'fault_enumeration'
 RULE = ("failure kinds {wrong output, exception in the doctest, in a module function it calls, in a helper defined by an "
         "earlier part shorter / longer than the failing part, compile-only errors (return / break outside, duplicate "
-        "argument), a __repr__ that raises, traceback want on non-raising code, NameError, assertion, malformed directive "
+        "argument), a __repr__ that raises, a failing part that replaced (and closed) sys.stdout, traceback want on non-raising code, NameError, assertion, malformed directive "
         "inline / block / noticed only when the part's directives are extracted at run time, wrong output on the second want, exception inside a coroutine, import error of the module under "
         "test} x position of the failing doctest {first, middle, last} x shape {bare, after wants, after multi-line "
         "statements, after helper definitions} x verbosity 0..3, every combination once per tier pass (quick: one context, "
@@ -59,6 +59,10 @@ KINDS = {
     # unbalanced parentheses in a directive comment that the parser does not look at (extra blanks after the prompt):
     # the directive is extracted lazily, inside run()
     'bad_directive_lazy': (['>>>   # xdoctest: +REQUIRES(module:zz FAILMARK', '>>> x = 1'], 'Exception'),
+    # the failing part replaced sys.stdout by a stream of its own, closed it, and raised before putting it back
+    'stdout_closed': (['>>> import sys, io', '>>> fh_zz = io.StringIO()',
+                       '>>> sys.stdout = fh_zz; fh_zz.close(); raise ValueError("FAILMARK")'], 'ValueError'),
+    'stdout_replaced': (['>>> import sys, io', '>>> sys.stdout = io.StringIO(); raise ValueError("FAILMARK")'], 'ValueError'),
     'nameerror': (['>>> undefined_name_zz  # FAILMARK'], 'NameError'),
     'assert': (['>>> assert 1 == 2, "FAILMARK"'], 'AssertionError'),
     'traceback_want_noraise': (['>>> x = 1', 'Traceback (most recent call last): FAILMARK', 'ValueError: nope'],
